@@ -379,8 +379,15 @@ def gen_merge(rng, label=None, backup=None, mode=None):
     elif mode == "output-existing":
         out = W + "existing.yaml"
         files[out] = "---\nprecious: data\n"
-        argv += ["-o", out]
+        # the same file under another spelling is still the same file
+        spelled = rng.choice([out, out, W + "./existing.yaml",
+                              "/sim/w//existing.yaml",
+                              "/sim/w/../w/existing.yaml",
+                              "~/existing.yaml"])
+        argv += ["-o", spelled] if rng.random() < 0.6 \
+            else ["--output=" + spelled]
         meta["keep"] = [out]
+        meta["spelled"] = spelled
     elif mode == "output-nodir":
         out = "/sim/nodir/merged.yaml"
         argv += ["-o", out]
